@@ -3,6 +3,7 @@
 import copy
 
 from props import _transfer_common as TC
+from props import _transfer_flags as TF
 
 PROPERTY = "C11"
 GEN: list = ["transfer"]
@@ -23,6 +24,12 @@ RULE = (
     "drop, file missing on both sides or pre-populated destination is involved."
 )
 ASSUMPTIONS = [
+    "coverage audit: dimensions Model/Transfer.v does not cover run as ORACLE-ONLY scenarios (case key oracle_only; "
+    "no correspondence item): injected FileExistsError, faults in the destination's existence query, a raising "
+    "validate_status, read-only destination, mixed hash names, real hard links on a plain LocalFileSystem (source "
+    "BYTES must stay; mode changes of a hard-linked source are not C11's subject), a directory at an object's path, "
+    "the memfs staging source of hashfile.build; failures whose signature is listed in "
+    "_transfer_common.PENDING_FINDINGS are collected in coverage.pending_findings instead of being raised",
     "uploads are sequential (jobs=1; dvc_objects uses batch_size=1 for local->local copies); the orders of the "
     "directory loop and of the uploads are observed and passed to the model as oracle arguments",
     "source, cache_odb and base-class stores: objects (corrupt ones included) are planted write-protected (0o444; a "
@@ -71,10 +78,13 @@ def _register(ctx, S, notes, items):
         ctx.count("outcome:" + ob["outcome"][0] + (str(ob["outcome"][1]) if ob["outcome"][0] == "err" else ""))
     for k, v in S.excluded.items():
         ctx.count(k if k.startswith("judged:") else "excluded:" + k, v)
-    for sig, what in problems:
-        ctx.oracle_fail(sig, what, case)
-    inp, exp = S.terms()
-    items.append((case, inp, exp))
+    problems = TC.report(ctx, TC.classify(S, problems), case)
+    TC.count_dims(ctx, TC.dimensions(S) | set(n for n in notes if n.startswith(("stream:", "shape:", "name:", "audit:")) or n in TC.NOTE_DIMS))
+    if case.get("oracle_only"):
+        ctx.count("oracle-only-scenarios")
+    else:
+        inp, exp = S.terms()
+        items.append((case, inp, exp))
     return [p for p in problems if p[0] != TC.KNOWN_SIG]
 
 
@@ -89,6 +99,25 @@ def run(ctx):
             n_problems += len(_register(ctx, S, ["corpus"], items))
         finally:
             S.close()
+    # coverage audit (tools/COVERAGE_AUDIT.md): fixed cases reaching every input dimension
+    audit = ([(c, ["audit:names"]) for c in TF.names_cases("C11")] + [(c, ["audit:shapes"]) for c in TF.shape_cases("C11")]
+             + [(c, ["audit:flags"]) for c in TF.flag_cases("C11")] + TF.position_cases(ctx, "C11")
+             + [(c, ["audit:oracle-only"]) for c in TF.oracle_only_cases("C11")])
+    for case, notes in audit:
+        case = copy.deepcopy(case)
+        plain = case.get("oracle_only") or any(r.get("kill_state") for r in case["rounds"])
+        S = TC.run_scenario(ctx, case, crash_some=0 if plain else 1)
+        try:
+            n_problems += len(_register(ctx, S, ["corpus"] + notes, items))
+        finally:
+            S.close()
+    for case in TF.staging_cases():
+        problems, dims, _rounds = TF.run_staging(ctx, case)
+        ctx.case(case, True)
+        ctx.count("audit:staging")
+        ctx.count("oracle-only-scenarios")
+        TC.count_dims(ctx, dims)
+        n_problems += len(TC.report(ctx, [p for p in problems if p[0].startswith("C11:")], case))
     # the sharing chain A-f-B-g-C (processing order A,B,C), every requested id labelled, f fails
     chain, _salt = TC.corpus_chain(ctx, True)
     if chain is not None:
@@ -102,7 +131,7 @@ def run(ctx):
                 n_problems += len(_register(ctx, S, ["corpus", "chain", "labels:all"], items))
             finally:
                 S.close()
-    nbase = ctx.n(75, 280)
+    nbase = ctx.n(62, 280)
     per_base = ctx.n(2, 10)
     for _ in range(nbase):
         base, notes = TC.gen_base(ctx.rng, "C11")
@@ -174,6 +203,10 @@ def run(ctx):
 
 def replay_case(ctx, case):
     case = copy.deepcopy(case)
+    if case.get("stream") == "staging":
+        problems, _dims, rounds = TF.run_staging(ctx, case)
+        problems = [p for p in problems if p[0].startswith("C11:")]
+        return {"violates": bool(problems), "problems": problems, "outcomes": [str(r["outcome"][:1]) for r in rounds]}
     S = TC.run_scenario(ctx, case)
     try:
         problems = TC.judge_c11(S)
